@@ -14,11 +14,15 @@ pub struct FdCfg {
     pub eq: bool,
     pub shapes: bool,
     pub hidden: bool,
+    /// now and then unify a finite-domain variable with a term that is not an integer (posted
+    /// after every domain). Off for checks that reorder goals: a domain posted on a variable that
+    /// is bound to a list applies to the list's elements, so the order matters by design.
+    pub non_int_eq: bool,
 }
 
 impl FdCfg {
     pub fn full() -> FdCfg {
-        FdCfg { max_vars: 4, max_constraints: 5, lo: -4, hi: 6, aliasing: true, times: true, eq: true, shapes: true, hidden: true }
+        FdCfg { max_vars: 4, max_constraints: 5, lo: -4, hi: 6, aliasing: true, times: true, eq: true, shapes: true, hidden: true, non_int_eq: false }
     }
 }
 
@@ -169,7 +173,7 @@ pub fn gen_case(s: &mut Source, cfg: &FdCfg) -> FdCase {
                 let a = var(s);
                 // now and then a finite-domain variable meets a term that is not an integer at
                 // all ([] , a list, an improper list, a bool, a compound): the goal must fail
-                let b = if s.flag(20) {
+                let b = if cfg.non_int_eq && s.flag(20) {
                     match s.below(5) {
                         0 => Term::Nil,
                         1 => Term::list(vec![Term::Int(1), Term::Int(2)]),
